@@ -36,7 +36,11 @@ impl ProgramLines {
     }
 
     pub fn after(&self, line: u64) -> Option<u64> {
-        self.sorted_line_numbers.range(line + 1..).next().copied()
+        // Not `line + 1..`: line numbers go up to u64::MAX.
+        self.sorted_line_numbers
+            .range((std::ops::Bound::Excluded(line), std::ops::Bound::Unbounded))
+            .next()
+            .copied()
     }
 
     pub fn has(&self, line_number: u64) -> bool {
